@@ -350,6 +350,12 @@ func (g *gen) inject(pos token.Pos, name string, sig *types.Signature, set *Prov
 				g.pkg.Fset.Position(pos),
 				fmt.Errorf("inject %s: provider for %s returns error but injection not allowed to fail", name, ts)))
 		}
+		if err := callAccessibleFrom(c, g.pkg.PkgPath); err != nil {
+			ts := types.TypeString(c.out, nil)
+			ec.add(notePosition(
+				g.pkg.Fset.Position(pos),
+				fmt.Errorf("inject %s: provider for %s can't be used: %v", name, ts, err)))
+		}
 		if c.kind == valueExpr {
 			if err := accessibleFrom(c.valueTypeInfo, c.valueExpr, g.pkg.PkgPath); err != nil {
 				// TODO(light): Display line number of value expression.
@@ -939,6 +945,35 @@ func disambiguate(name string, collides func(string) bool) string {
 			return sbuf
 		}
 	}
+}
+
+// callAccessibleFrom reports whether the generated code for c, which names a
+// provider function, a struct type and its fields, or a selected field, can be
+// written in package wantPkg without violating Go visibility rules.
+func callAccessibleFrom(c *call, wantPkg string) error {
+	if c.pkg == nil || c.pkg.Path() == wantPkg {
+		return nil
+	}
+	switch c.kind {
+	case funcProviderCall:
+		if !ast.IsExported(c.name) {
+			return fmt.Errorf("function %s is not exported by package %s", c.name, c.pkg.Path())
+		}
+	case structProvider:
+		if !ast.IsExported(c.name) {
+			return fmt.Errorf("type %s is not exported by package %s", c.name, c.pkg.Path())
+		}
+		for _, f := range c.fieldNames {
+			if !ast.IsExported(f) {
+				return fmt.Errorf("field %s of %s.%s is not exported", f, c.pkg.Path(), c.name)
+			}
+		}
+	case selectorExpr:
+		if !ast.IsExported(c.name) {
+			return fmt.Errorf("field %s is not exported by package %s", c.name, c.pkg.Path())
+		}
+	}
+	return nil
 }
 
 // accessibleFrom reports whether node can be copied to wantPkg without
